@@ -56,15 +56,36 @@ package contentstream
 //@     invariant p.pos == old(p.pos) ==> !hasDecimal && !(p.data[p.pos] == '+' || p.data[p.pos] == '-')
 //@     decreases len(p.data) - p.pos
 
+// ISO 32000-1 7.3.4.2 literal strings, one lexical element at position p (bs = a backslash that has a following byte):
+//   \ddd  1..3 octal digits, value mod 256      \n \r \t \b \f \( \) \\  named escapes
+//   \ + CR [LF] or \ + LF  line continuation (nothing emitted)      \x  any other byte: the backslash is dropped
+//   ( and ) are kept while nested; the closing parenthesis of the string itself is not emitted
+//@ spec func octDigit(b int) bool = b >= '0' && b <= '7'
+//@ spec func litEsc(data []byte, p int) bool = data[p] == 92 && p + 1 < len(data)
+//@ spec func litOctN(data []byte, p int) int = 1 + ((p + 2 < len(data) && octDigit(data[p+2])) ? (1 + ((p + 3 < len(data) && octDigit(data[p+3])) ? 1 : 0)) : 0)
+//@ spec rec func octFold(data []byte, s int, n int) int = n <= 0 ? 0 : octFold(data, s, n - 1) * 8 + (data[s+n-1] - '0')
+//@ spec func litNamed(n int) int = n == 'n' ? 10 : (n == 'r' ? 13 : (n == 't' ? 9 : (n == 'b' ? 8 : (n == 'f' ? 12 : n))))
+//@ spec func litNext(data []byte, p int) int = litEsc(data, p) ? (octDigit(data[p+1]) ? p + 1 + litOctN(data, p) : (data[p+1] == 13 ? p + 2 + ((p + 2 < len(data) && data[p+2] == 10) ? 1 : 0) : p + 2)) : p + 1
+//@ spec func litEmits(data []byte, p int, depth int) int = litEsc(data, p) ? ((data[p+1] == 13 || data[p+1] == 10) ? 0 : 1) : (data[p] == ')' ? (depth - 1 > 0 ? 1 : 0) : 1)
+//@ spec func litByte(data []byte, p int) int = litEsc(data, p) ? (octDigit(data[p+1]) ? mod(octFold(data, p + 1, litOctN(data, p)), 256) : litNamed(data[p+1])) : data[p]
+//@ spec func litDepth(data []byte, p int, depth int) int = litEsc(data, p) ? depth : (data[p] == '(' ? depth + 1 : (data[p] == ')' ? depth - 1 : depth))
+
 //@ func (*Parser) parseString results (obj, err)
-//@   property C02
+//@   property C02, C06
 //@   requires pinv(p) && p.pos < len(p.data)
 //@   ensures pinv(p) && psame(p, old(p)) && p.pos >= old(p.pos) && (!err ==> p.pos > old(p.pos))
 //@   loop 0:
 //@     invariant pinv(p) && psame(p, old(p)) && p.pos > old(p.pos) && depth >= 0
+//@     step next_element: p.pos == litNext(p.data, prev(p.pos))
+//@     step nesting: depth == litDepth(p.data, prev(p.pos), prev(depth))
+//@     step emitted_count: len(result) == prev(len(result)) + litEmits(p.data, prev(p.pos), prev(depth))
+//@     step emitted_byte: litEmits(p.data, prev(p.pos), prev(depth)) == 1 ==> result[prev(len(result))] == litByte(p.data, prev(p.pos))
+//@     step earlier_output_kept: forall k int :: {result[k]} 0 <= k && k < prev(len(result)) ==> result[k] == prev(result)[k]
 //@     decreases len(p.data) - p.pos
 //@   loop 1:
-//@     invariant pinv(p) && psame(p, old(p)) && p.pos >= entry(p.pos) && 0 <= i && i <= 2
+//@     invariant pinv(p) && psame(p, old(p)) && 0 <= i && i <= 2 && p.pos == entry(p.pos) + i && same(result, entry(result)) && depth == entry(depth)
+//@     invariant forall k int :: {p.data[k]} entry(p.pos) <= k && k < p.pos ==> octDigit(p.data[k])
+//@     invariant octalVal == octFold(p.data, entry(p.pos) - 1, i + 1) && octalVal >= 0
 
 //@ func (*Parser) parseHexString results (obj, err)
 //@   property C02
